@@ -7,6 +7,7 @@ import (
 	"io"
 	"regexp"
 	"runtime"
+	"strings"
 	"testing/synctest"
 	"time"
 
@@ -28,10 +29,10 @@ type Case struct {
 	State       string      `json:"state"`      // see states
 	CloseMode   string      `json:"close_mode"` // eof, err, block
 	ReadDelayNS int64       `json:"read_delay_ns"`
-	WarmOps     int         `json:"warm_ops"`    // successful operations before the scenario
-	SkewNS      int64       `json:"skew_ns"`     // concurrent states: event happens this long after Close starts (negative: before)
-	Version     string      `json:"version"`     // netconf
-	Order       [][2]string `json:"order"`       // ordering constraints "A before B" over yield points
+	WarmOps     int         `json:"warm_ops"` // successful operations before the scenario
+	SkewNS      int64       `json:"skew_ns"`  // concurrent states: event happens this long after Close starts (negative: before)
+	Version     string      `json:"version"`  // netconf
+	Order       [][2]string `json:"order"`    // ordering constraints "A before B" over yield points
 	SecondClose bool        `json:"second_close"`
 	// CloseFails: the transport's Close reports an error (as ssh sessions do with io.EOF once the
 	// peer has closed the stream); Close of the driver may then return it, everything else holds.
@@ -39,6 +40,9 @@ type Case struct {
 	// RealTime runs the scenario on the wall clock without a bubble (race detector tier; also
 	// admits ReadDelay 0, which spins and cannot run on the virtual clock).
 	RealTime bool `json:"real_time,omitempty"`
+	// Subscribe (netconf): the operations are subscription rpcs and the server pushes a
+	// notification after each reply (shared state: the subscription store).
+	Subscribe bool `json:"subscribe,omitempty"`
 }
 
 var states = []string{
@@ -55,6 +59,7 @@ func gen(t *rapid.T) Case {
 		Version:     rapid.SampledFrom([]string{"1.0", "1.1"}).Draw(t, "version"),
 		SecondClose: rapid.IntRange(0, 3).Draw(t, "second") == 0,
 		CloseFails:  rapid.IntRange(0, 3).Draw(t, "closeFails") == 0,
+		Subscribe:   rapid.IntRange(0, 2).Draw(t, "subscribe") == 0,
 	}
 
 	if c.State == "data-concurrent" || c.State == "err-concurrent" || c.State == "eof-concurrent" {
@@ -113,6 +118,16 @@ func build(c Case) (*session, error) {
 				return nil
 			}
 
+			if strings.Contains(r.XML, "establish-subscription") {
+				const evNS = "urn:ietf:params:xml:ns:yang:ietf-event-notifications"
+
+				return []sim.NCAction{
+					{Payload: fmt.Sprintf(`<rpc-reply xmlns="%s" message-id="%s"><subscription-result xmlns="%s" xmlns:notif-bis="%s">notif-bis:ok</subscription-result><subscription-id xmlns="%s">7</subscription-id></rpc-reply>`,
+						sim.BaseNS, r.MessageID, evNS, evNS, evNS), TrailLF: true},
+					{Payload: fmt.Sprintf(`<notification xmlns="urn:ietf:params:xml:ns:netconf:notification:1.0"><eventTime>2026-01-01T00:00:00Z</eventTime><push-update xmlns="urn:ietf:params:xml:ns:yang:ietf-yang-push"><subscription-id>7</subscription-id><n>%d</n></push-update></notification>`, r.Index), TrailLF: true},
+				}
+			}
+
 			return []sim.NCAction{{Payload: fmt.Sprintf(`<rpc-reply xmlns="%s" message-id="%s"><ok/></rpc-reply>`, sim.BaseNS, r.MessageID), TrailLF: true}}
 		}
 		s.pipe = sim.NewPipe(srv)
@@ -126,6 +141,15 @@ func build(c Case) (*session, error) {
 		s.open, s.close = d.Open, d.Close
 		s.op = func(time.Duration) error { _, e := d.Get(""); return e }
 		s.stallOp = func(time.Duration) error { stall = true; _, e := d.Get(""); return e }
+
+		if c.Subscribe {
+			s.op = func(time.Duration) error {
+				_, e := d.EstablishPeriodicSubscription("/a", 100)
+				_ = d.GetSubscriptionMessages(7)
+
+				return e
+			}
+		}
 
 		return s, nil
 	}
